@@ -179,7 +179,12 @@ def extras_worker(seed):
              # powers with a non-integer exponent whose value is an exactly representable rational
              ("1e-3", "1/1000"), ("300000e-5", "3"), ("1e-3 * 1000 == 1", "true"), ("25e-1", "5/2"), ("1.5e-2", "3/200"), ("7E-1 + 3e-1", "1"),
              ("4 ** 0.5", "2"), ("4 ** 30.5", str(2 ** 61)), ("(1/4) ** 12.5 == 1 / 2 ** 25", "true"), ("0.25 ** 0.5", "1/2"),
-             ("16 ** 0.75", "8")]
+             ("16 ** 0.75", "8"),
+             # results of fractional powers and dyadic fractions that need more digits than a float's shortest repr carries
+             ("(2 ** 200) ** (1/2)", str(2 ** 100)), ("(2 ** 120) ** 0.5", str(2 ** 60)), ("(2 ** -80) ** 0.5 == 1 / 2 ** 40", "true"),
+             ("(2 ** -80) ** 0.5", "1/%d" % 2 ** 40), ("1 + 2 ** -52", "%d/%d" % (2 ** 52 + 1, 2 ** 52)), ("3 * 2 ** -60", "3/%d" % 2 ** 60),
+             ("(1 + 2 ** -52) * 2 ** 52", str(2 ** 52 + 1)), ("1 / 3 * 10 ** 20", "%d/3" % 10 ** 20), ("(3 ** 40) ** 0.5", str(3 ** 20)),
+             ("2 ** -1074", "1/%d" % 2 ** 1074), ("0.1", "1/10"), ("1e-20 + 1", "%d/%d" % (10 ** 20 + 1, 10 ** 20))]
     for text, want in cases:
         with dsdlio.Tree({"ns/A.1.0.dsdl": "@print %s\n@sealed\n" % text}, "c04x") as tr:
             status, res, prints = dsdlio.read_ns(tr.path("ns"))
